@@ -161,3 +161,16 @@ EXTRA["C12"] = {
             "templates around the elements, and dict key ordering, are outside this kernel.",
     "design_ref": "DESIGN.md section 6, C12",
 }
+
+EXTRA["C03"] = {
+    "text": "Bounded symbolic model checking of the infix loop of the real parse_expression (parser.rs) with "
+            "token_as_binary_op, TokenStream::peek/pop, Position::merge, Expression::new and IdGenerator::next executed "
+            "for real, on token streams x1 op1 x2 ... xk whose operator tokens are symbolic: all 21 operator strings "
+            "(read from the source) for chains of up to 3 (quick) / 4 operands, three operators for chains up to 6. "
+            "Decided on every path: the returned tree is the left fold ((x1 op1 x2) op2 x3)... with the operators in "
+            "source order and no diagnostic, and the operator strings map to pairwise distinct kinds. Replay through "
+            "`garden reftest-ast` on the generated chain.",
+    "note": "Trusted: rsx, z3; the abstraction that parse_expression_no_trailing consumes one operand token and returns a "
+            "non-operator expression (parenthesised operands are atoms to this loop). Whole-file parsing is outside.",
+    "design_ref": "DESIGN.md section 6, C03",
+}
